@@ -284,7 +284,7 @@ func c14(ctx *Ctx) {
 		}})
 	// the same two names with contents that differ in exactly one keyword: the second definition must not be folded into the first
 	runBehaviour(ctx, behaviour{Name: "same-name-pairs", Cases: sameNamePairs("C14"), Values: true, K: 1,
-		Devs: []string{"LEN_BYTES", "FLOAT_MULTIPLEOF_TOLERANCE", "NULL_OBJECT_VALIDATES_ZERO", "DEFAULT_ENUM_NULL_REJECTED"},
+		Devs: []string{"LEN_BYTES", "FLOAT_MULTIPLEOF_TOLERANCE", "NULL_OBJECT_VALIDATES_ZERO", "DEFAULT_ENUM_NULL_REJECTED", "SAME_NAME_ANYOF_DIFFERENCE_IGNORED", "ANYOF_MERGED_FIELD_TYPES"},
 		DocFilter: func(sc *SCase, d *refmodel.Doc, tv refmodel.Verdict) bool {
 			for i := 0; i < len(d.Text); i++ {
 				if d.Text[i] >= 0x80 {
